@@ -118,3 +118,11 @@ package scheduler
 //@   loop 1 invariant forall j int :: 0 <= j && j < len(nodes) ==> nodes[j] != nil && nodes[j].Expiration >= epoch
 //@   precall scheduler\.electValidators$ :: argIs(5, nodes) && (forall j int :: 0 <= j && j < len(nodes) ==> nodes[j] != nil && nodes[j].Expiration >= epoch)
 //@   note only nodes whose descriptor has not expired at the election epoch are handed to the validator election (a second invariant over the committee candidates - unexpired and not frozen - is provable but takes about 50 s together with this one, so it is not part of the check; frozenness is decided on a status object the validator candidate list does not keep)
+
+// ---- committee eligibility (C14): the runtime version a worker must run is the ACTIVE one ----
+
+//@ func isSuitableExecutorWorker
+//@   props C14
+//@   requires n != nil && rt != nil && n.node != nil
+//@   ensures-local result ==> defined(nrt) && defined(activeDeployment) && activeDeployment != nil && nrt.Version.Major == activeDeployment.Version.Major && nrt.Version.Minor == activeDeployment.Version.Minor && nrt.Version.Patch == activeDeployment.Version.Patch
+//@   note a node is suitable for a runtime's executor committee only through an entry of its runtime list whose version equals the version of the deployment that is ACTIVE at the election epoch - not merely a version the runtime descriptor lists (a superseded or not yet active deployment; seed C14_h)
